@@ -2,6 +2,7 @@
 families (first) and random histories (second)."""
 from .common import *
 from .. import scenarios
+from ..model import EXPIRY, PERIOD
 
 PROFILES = {
     "C01": dict(gen=dict(napps=2, nsides=3, steps=70), keys=("c01_replay_nonempty",)),
@@ -45,6 +46,10 @@ def jobs(pid, tier, seed):
         out += [{"kind": "fixture", "name": nm, "seed": seed * 1000 + i} for nm in sorted(SPECS) for i in range(12 if tier == "quick" else 200)]
     if pid in ("C07", "C18"):
         out += [{"kind": "bulk_list", "n": n, "allow_list": a} for n in (1010, 1200) for a in (1, 0)]
+    if pid in ("C12", "C02", "C01"):
+        out += [{"kind": "bulk_subscribed", "n": 1100, "usage": u} for u in ((0, 1) if pid == "C12" else (0,))]
+    if pid in ("C01", "C05", "C15", "C16"):
+        out += [{"kind": "bulk_expire", "n": 560, "blur": b} for b in ((None, 60) if pid in ("C15", "C01") else (60,) if pid == "C16" else (None,))]
     if pid in ("C01", "C02"):
         out += [{"kind": "lazy", "n": n} for n in (0, 1, 2, 99, 100, 101, 250, 520)]
         out += [{"kind": "lazy", "pipeline": k} for k in ("adds-drop", "adds-closing", "open-close",
@@ -423,6 +428,163 @@ def run_bulk_list(pid, job, acc):
         rmtree(wd)
 
 
+def run_bulk_subscribed(pid, job, acc):
+    """More than a thousand mailboxes of one app (and some of another), each with a connected subscriber and a
+    stored message, sit through four sweeps: none may lose anything (C12); afterwards a second side joins a sample
+    of them and its message reaches the first subscriber exactly once (C02), and the stored message is replayed (C01)."""
+    from ..engine import World, new_workdir, rmtree
+    cfg = Config(usage=bool(job.get("usage")))
+    wd = new_workdir("bsub")
+    w = World(wd, cfg, seed=job["n"], dump_every_step=False)
+    case = "bulk_subscribed:%s" % sorted(job.items())
+    problems = []
+    try:
+        w.start()
+        subs = []
+        for i in range(job["n"]):
+            c = w.connect()
+            app = "app" if i % 40 else "app2"
+            w.send(c.name, {"type": "bind", "appid": app, "side": "s1"})
+            w.send(c.name, {"type": "open", "mailbox": "mb%d" % i})
+            w.send(c.name, {"type": "add", "phase": "p", "body": "first-%d" % i})
+            subs.append((c.name, app, "mb%d" % i, i))
+        before = {t: len(r) for t, r in w.dump().items()}
+        w.advance(4 * PERIOD + 1)
+        after = {t: len(r) for t, r in w.dump().items()}
+        acc.ev["c12_must_survive"] += job["n"]
+        acc.ev["c12_must_survive_subscribed"] += job["n"]
+        acc.ev["bulk_subscribed_mailboxes"] += job["n"]
+        if before.get("mailboxes", 0) != job["n"]:
+            acc.errors.append("bulk_subscribed: %r stored before the sweeps" % before)
+        if after != before:
+            have = {r["id"] for r in w.dump()["mailboxes"].values()}
+            lost = [m for _, _, m, _ in subs if m not in have]
+            problems.append(("C12", "sweeps removed rows of subscribed mailboxes", {"before": before, "after": after, "lost_e.g.": lost[:5],
+                                                                                   "positions": [int(x[2:]) for x in lost[:5]]}))
+        idx = sorted(set([0, 1, 2, 497, 498, 499, 500, 501, 997, 998, 999, 1000, 1001, job["n"] - 1] + list(range(3, job["n"], 97))))
+        for i in idx:
+            if i >= job["n"]:
+                continue
+            cn, app, mid, _ = subs[i]
+            p = w.connect()
+            w.send(p.name, {"type": "bind", "appid": app, "side": "s2"})
+            st = w.send(p.name, {"type": "open", "mailbox": mid})
+            replay = [f.get("body") for c2, f in st.frames if c2 == p.name and f.get("type") == "message"]
+            acc.ev["c01_replay_nonempty"] += 1
+            if replay != ["first-%d" % i]:
+                problems.append(("C01", "second side of a long-subscribed mailbox is not replayed its stored message",
+                                 {"mailbox": mid, "replay": replay[:3]}))
+            st = w.send(p.name, {"type": "add", "phase": "q", "body": "second-%d" % i})
+            got = [c2 for c2, f in st.frames if f.get("type") == "message" and f.get("body") == "second-%d" % i]
+            acc.ev["c02_fanout_subscribed"] += 1
+            if sorted(got) != sorted([cn, p.name]):
+                problems.append(("C02", "message added to a long-subscribed mailbox not delivered once to each subscriber",
+                                 {"mailbox": mid, "delivered_to": got, "expected": [cn, p.name]}))
+            w.drop(p.name)
+        acc.cases += 1
+        acc.distinct.add(case)
+        acc.steps += w.counters["steps"]
+        acc.frames += w.counters["frames"]
+        mine = [x for x in problems if x[0] == pid] or ([x for x in problems if x[0] == "C12"] if pid in ("C01", "C02") else [])
+        if mine:
+            acc.add_violation({"property": pid, "kind": "bulk_subscribed", "case": case, "job": job,
+                               "violation": {"props": sorted({x[0] for x in problems}), "kind": mine[0][1], "detail": mine[0][2], "step": None}})
+    finally:
+        w.close()
+        rmtree(wd)
+
+
+def run_bulk_expire(pid, job, acc):
+    """More than five hundred mailboxes of one app (and some of another), each with two sides and stored messages,
+    are abandoned at known times and expire in one sweep: nothing of them is left (C13), each gets exactly one usage
+    record whose start is the (blurred) time its first side arrived (C15, C16), and every id opened again starts empty
+    and admits two new sides (C01, C05)."""
+    from ..engine import World, new_workdir, rmtree
+    blur = job.get("blur")
+    cfg = Config(usage=True, blur=blur)
+    wd = new_workdir("bexp")
+    w = World(wd, cfg, seed=job["n"], dump_every_step=False)
+    case = "bulk_expire:%s" % sorted(job.items())
+    problems = []
+    try:
+        w.start()
+        t_first = {}
+        for i in range(job["n"]):
+            app = "app" if i % 40 else "app2"
+            mid = "mx%d" % i
+            a = w.connect()
+            w.send(a.name, {"type": "bind", "appid": app, "side": "s1"})
+            w.send(a.name, {"type": "open", "mailbox": mid})
+            t_first[(app, mid)] = w.now
+            w.send(a.name, {"type": "add", "phase": "p", "body": "old-%d" % i})
+            if i % 3 == 0:
+                w.advance(0.25)
+            b = w.connect()
+            w.send(b.name, {"type": "bind", "appid": app, "side": "s2"})
+            w.send(b.name, {"type": "open", "mailbox": mid})
+            w.send(b.name, {"type": "add", "phase": "q", "body": "old2-%d" % i})
+            w.drop(a.name)
+            w.drop(b.name)
+            if i % 7 == 0:
+                w.advance(0.5)
+        n0 = len(w.dump()["mailboxes"])
+        u0 = len(w.udump()["mailboxes"])
+        if n0 != job["n"]:
+            acc.errors.append("bulk_expire: %d mailboxes stored before the sweep" % n0)
+        w.advance(EXPIRY + PERIOD + 1)
+        left = {t: len(r) for t, r in w.dump().items() if r}
+        acc.ev["c13_empty_at_quiescence"] += 1
+        if left:
+            problems.append(("C13", "idle channels left after expiry plus one period (many mailboxes at once)", {"left": left}))
+        recs = [r for r in w.udump()["mailboxes"].values()][u0:]
+        acc.ev["c15_conservation_mailbox"] += job["n"]
+        if len(recs) != job["n"]:
+            problems.append(("C15", "usage records written for expired mailboxes: %d, mailboxes expired: %d" % (len(recs), job["n"]), {}))
+        else:
+            from collections import Counter as _C
+            exp = _C()
+            for (app, mid), t in t_first.items():
+                st_ = t
+                if blur:
+                    st_ = blur * (st_ // blur)
+                exp[(app, int(st_) if st_ == int(st_) else st_, "pruney")] += 1
+            got = _C((r["app_id"], r["started"], r["result"]) for r in recs)
+            acc.ev["c15_classified_mailbox"] += job["n"]
+            acc.ev["c16_blur_mailbox-pruned"] += job["n"] if blur else 0
+            if got != exp:
+                miss = list((exp - got).items())[:3]
+                extra = list((got - exp).items())[:3]
+                problems.append(("C15" if not blur else "C16", "usage records of many mailboxes expired in one sweep differ from the facts (app, started, result)",
+                                 {"expected_not_found": miss, "found_not_expected": extra, "blur": blur}))
+        for i in sorted(set([0, 1, 498, 499, 500, 501, 519, job["n"] - 1] + list(range(2, job["n"], 37)))):
+            if i >= job["n"]:
+                continue
+            app = "app" if i % 40 else "app2"
+            seen = []
+            for side in ("s3", "s4"):
+                c = w.connect()
+                w.send(c.name, {"type": "bind", "appid": app, "side": side})
+                st = w.send(c.name, {"type": "open", "mailbox": "mx%d" % i})
+                seen += [f.get("body") for c2, f in st.frames if f.get("type") == "message"]
+                if any(f.get("type") == "error" for c2, f in st.frames):
+                    problems.append(("C05", "a new side of an id whose previous life expired is refused", {"mailbox": "mx%d" % i, "frames": repr(st.frames)[:200]}))
+            acc.ev["c01_replay_after_deletion_empty"] += 1
+            if seen:
+                problems.append(("C01", "an id whose previous life expired does not start empty", {"mailbox": "mx%d" % i, "replayed": seen[:4]}))
+        acc.cases += 1
+        acc.distinct.add(case)
+        acc.steps += w.counters["steps"]
+        acc.frames += w.counters["frames"]
+        own = {"C05": ("C05", "C01"), "C16": ("C16", "C15"), "C15": ("C15", "C16")}.get(pid, (pid,))
+        mine = [x for x in problems if x[0] in own]
+        if mine:
+            acc.add_violation({"property": pid, "kind": "bulk_expire", "case": case, "job": job,
+                               "violation": {"props": sorted({x[0] for x in problems}), "kind": mine[0][1], "detail": mine[0][2], "step": None}})
+    finally:
+        w.close()
+        rmtree(wd)
+
+
 def run_fixture(pid, job, acc):
     from .. import fixtures, diff
     recA, recB, cont, cnt = fixtures.run_pair(job["name"], job["seed"])
@@ -454,6 +616,10 @@ def run_job(pid, job, acc):
         return run_bulk_list(pid, job, acc)
     if job["kind"] == "fixture":
         return run_fixture(pid, job, acc)
+    if job["kind"] == "bulk_subscribed":
+        return run_bulk_subscribed(pid, job, acc)
+    if job["kind"] == "bulk_expire":
+        return run_bulk_expire(pid, job, acc)
     if job["kind"] == "classifier":
         return run_classifier_product(acc)
     if job["kind"] == "crashimg":
@@ -492,6 +658,10 @@ def replay(pid, rep):
     if rep.get("kind") == "fixture":
         acc = Acc(pid)
         run_fixture(pid, rep["job"], acc)
+        return acc
+    if rep.get("kind") in ("bulk_subscribed", "bulk_expire"):
+        acc = Acc(pid)
+        (run_bulk_subscribed if rep["kind"] == "bulk_subscribed" else run_bulk_expire)(pid, rep["job"], acc)
         return acc
     if rep.get("kind") == "classifier":
         acc = Acc(pid)
